@@ -39,7 +39,7 @@ def plan(tier: str, seed: int) -> Dict[str, Any]:
     tasks = [{'i': i, 'seed': derive(seed, PROPERTY, i), 'faults': 40 if tier == 'quick' else 60,
               'enumerate': tier == 'thorough' and i % 20 == 0,
               'roundtrip': i % 4 == 0} for i in range(n)]
-    return {'tasks': tasks, 'budget_s': 80 if tier == 'quick' else 1800, 'task_timeout': 300, 'selfcheck': 3}
+    return {'tasks': tasks, 'budget_s': 80 if tier == 'quick' else 1800, 'task_timeout': 300 if tier == 'quick' else 1200, 'selfcheck': 3}
 
 
 # --------------------------------------------------------------------------
